@@ -12,6 +12,7 @@ available = z3.Function('hashlib_available', z3.StringSort(), z3.BoolSort())
 @contract('gemato/hash.py', 'SizeHash.__init__', props=['C17'])
 def _(c):
     c.params(self=SH)
+    c.modifies(('self', 'size'))
     c.only_raises()
     c.inline = True
     c.ensures('starts-at-zero', lambda s: s.self.size == 0)
@@ -20,6 +21,7 @@ def _(c):
 @contract('gemato/hash.py', 'SizeHash.update', props=['C17'])
 def _(c):
     c.params(self=SH, data=Bytes)
+    c.modifies(('self', 'size'))
     c.only_raises()
     c.ensures('adds-length-of-block', lambda s: s.self.size == s.old.self.size + z3.Length(s.data))
 
@@ -290,6 +292,8 @@ def _hash_file_contract():
     def keys_set(s):
         return z3.And(set_of(s, s.seq, z3.Length(s.seq)) == all_names(s), one_object_per_name(s))
 
+    # the read position of f advances; the hash objects (in the model: one object per algorithm name, A-hashlib) are fed
+    c.modifies(('f', '_pos'), ('*', '_fed'))
     c.requires('A-hashlib: the hash object made for a name is identified by that name', one_object_per_name)
 
     # loop 1: for h in hash_names
@@ -305,7 +309,7 @@ def _hash_file_contract():
                                             lambda kk: z3.If(z3.Select(set_of(s, s.seq, s.i), kk), s.cur.block, z3.StringVal('')))))],
            assume_each=keys_facts, assume_seq=keys_set)
     # loop 3: chunk branch, for block in iter(lambda: f.read1(N), b'')
-    c.loop(3, header="for block in iter(lambda: f.read1(HASH_BUFFER_SIZE), b'')", vars={'h': None}, havoc_fields=['_fed', '_pos'],
+    c.loop(3, header="for block in iter(lambda: f.read1(HASH_BUFFER_SIZE), b'')", vars={'h': None}, havoc_fields=['_fed', ('f', '_pos')],
            inv=[('every-hasher-holds-the-bytes-read-so-far',
                  lambda s: z3.And(s.f._pos >= 0, s.f._pos <= z3.Length(data(s)), table_is(s, all_names(s)),
                                   every_fed(s, all_names(s), lambda kk: z3.SubString(data(s), 0, s.f._pos))))])
